@@ -69,7 +69,34 @@ class Expr:
         return s
 
 
+def synth_name(e):
+    """the name verilog.py's transformer gives the gate of an expression (before uniquification)"""
+    if e.op == "id":
+        return e.name
+    if e.op == "const":
+        return "tie_" + e.name
+    pre = {"not": "not", "&": "and", "|": "or", "^": "xor", "xnor": "xnor", "mux": "mux_o"}[e.op]
+    return pre + "_" + "_".join(synth_name(a) for a in e.args)
+
+
+def subexprs(e):
+    out = [e] if e.op not in ("id", "const") else []
+    for a in e.args:
+        out += subexprs(a)
+    return out
+
+
 def rand_expr(rng, leaves, depth, allow_mux=True, top=True):
+    if depth >= 2 and rng.random() < 0.08:
+        # a left-associated chain with repeated operands: a ^ b ^ a, a & b & a ...
+        op = rng.choice(["^", "^", "xnor", "&", "|"])
+        pool = [rng.choice(leaves) for _ in range(2)]
+        terms = [Expr("id", name=rng.choice(pool)) if rng.random() < 0.85 else Expr("const", name=rng.choice("01"))
+                 for _ in range(rng.randint(3, 4))]
+        e = terms[0]
+        for t in terms[1:]:
+            e = Expr(op, [e, t])
+        return e
     if depth <= 0 or rng.random() < 0.25:
         if rng.random() < 0.1:
             return Expr("const", name=rng.choice("01"))
@@ -86,13 +113,16 @@ def rand_expr(rng, leaves, depth, allow_mux=True, top=True):
 class Module:
     """statements: ('assign', lhs, Expr) | ('gate', type, inst, out, [Expr operands]) | ('bb', bbname, inst, {pin: net or None})"""
 
-    def __init__(self, rng, blackboxes=(), adversarial=0.0, exprs_in_ports=True, restricted=False):
+    def __init__(self, rng, blackboxes=(), adversarial=0.0, exprs_in_ports=True, restricted=False, plant=()):
         self.rng = rng
         self.name = rng.choice(["top", "m", "circ_1"])
         ni = rng.randint(1, 4)
         pools = ["a", "b", "c", "d", "in_0", "in_1", "\\esc.a", "\\1x"] if not restricted else ["a", "b", "c", "d", "in_0", "in_1"]
         adv = ["not_a", "and_a_b", "or_a_b", "xor_a_b", "tie_0", "tie_1", "mux_o_a_b_c", "not_b", "g_0", "and_a_b_0", "w_input",
                "x_output", "assign_q"]
+        if plant:
+            # names left behind by earlier parses in this process: every parse must be independent of them
+            adv = list(plant)
         names = []
         while len(names) < ni:
             cand = rng.choice(adv) if rng.random() < adversarial else rng.choice(pools)
@@ -108,6 +138,12 @@ class Module:
         for i in range(ng):
             base = rng.choice(["w", "n", "g"]) + str(i)
             net = rng.choice(adv) if rng.random() < adversarial else base
+            if adversarial and rng.random() < 0.15:
+                # a net named exactly like one of the gates the transformer synthesises for an earlier expression
+                subs = [synth_name(x) for st in self.stmts if st[0] == "assign" for x in subexprs(st[2])
+                        if "\\" not in synth_name(x)]
+                if subs:
+                    net = rng.choice(subs)
             if net in nets:
                 net = base
             kind = rng.random()
@@ -143,6 +179,9 @@ class Module:
                     ops[rng.randrange(k)] = Expr("const", name=rng.choice("01"))
                 else:
                     ops = [Expr("id", name=x) for x in rng.sample(nets, k)]
+                if t not in ("buf", "not") and rng.random() < 0.12:
+                    # an operand given twice (cancels in xor/xnor, harmless elsewhere); fan-in sets would collapse it
+                    ops.insert(rng.randrange(len(ops) + 1), rng.choice(ops))
                 self.stmts.append(("gate", t, f"g_{i}" if rng.random() < 0.8 else f"U{i}", net, ops))
                 self.defs[net] = ("gate", t, ops)
             nets.append(net)
